@@ -184,6 +184,13 @@ static Reg r_mctor("m15_ctor", [](const Args& a) {
     if (!(bits(A.EquatorialRadius()) == bits(aa) && bits(A.Flattening()) == bits(f) && bits(A.PolarSemiAxis()) == bits(A._b))) bad("auxlat-getters", "EquatorialRadius/Flattening/PolarSemiAxis do not return the members");
     Ellipsoid E(aa, f);
     if (!(bits(E.EquatorialRadius()) == bits(aa) && bits(E.Flattening()) == bits(f))) bad("ellipsoid-getters", "EquatorialRadius/Flattening do not return the arguments");
+    // the documented default arguments: exact = false
+    if (!(bits(A.RectifyingRadius()) == bits(A.RectifyingRadius(false)) && bits(A.AuthalicRadiusSquared()) == bits(A.AuthalicRadiusSquared(false))))
+      bad("auxlat-defaults", "RectifyingRadius() / AuthalicRadiusSquared() without argument are not the series values");
+    { AuxAngle z(0.6, 0.8), r1 = A.Convert(0, 3, z), r2 = A.Convert(0, 3, z, false);
+      if (!(bits(r1.y()) == bits(r2.y()) && bits(r1.x()) == bits(r2.x()))) bad("auxlat-defaults", "Convert(auxin, auxout, zeta) without `exact` is not the series conversion");
+      double d1 = A.Convert(0, 3, 30.0), d2 = A.Convert(0, 3, 30.0, false);
+      if (!(bits(d1) == bits(d2))) bad("auxlat-defaults", "Convert(auxin, auxout, degrees) without `exact` is not the series conversion"); }
   } catch (const GeographicErr&) { emit("!E"); }
 });
 // m15_axes a b y x : AuxLatitude::axes(a, b): members, and its conversions against those of AuxLatitude(a, (a - b)/a)
